@@ -304,8 +304,9 @@ def reindex(k, e):
 
 # ----------------------------------------------------------------------------------------------- contract objects
 class LoopSpec:
-    def __init__(self, invariants=None, modifies=(), unroll=None, decreases=None):
+    def __init__(self, invariants=None, modifies=(), unroll=None, decreases=None, lemmas=None):
         self.invariants = dict(invariants or {})
+        self.lemmas = dict(lemmas or {})       # ghost assertions at the END of the body: proved there, then assumed for `preserved`
         self.modifies = list(modifies)
         self.unroll = unroll
         self.decreases = decreases
@@ -735,9 +736,11 @@ class Translator:
             if not self.ctx.is_ptr(p):
                 raise ClauseError('oldmem of a non-pointer')
             return self.ctx.elem(p, i, True)
-        if f == 'pre':      # value at the entry of the innermost loop whose invariant this is (before the havoc)
+        if f in ('pre', 'iter'):
+            # pre(e): value at the entry of the innermost loop whose invariant this is (before the havoc);
+            # iter(e): value at the start of the current iteration (loop lemmas / preservation)
             saved = self.old
-            self.old = 'pre'
+            self.old = f
             try:
                 return self.ev(n.args[0])
             finally:
